@@ -129,9 +129,13 @@ def _(repo):
         raise Untranslatable("expected four assignments of mse_norm_loss (PINN / SPINN x stationary / not)")
     e1 = {"v_u(*batches, params)": 0, "int_length": 1, "loss_weight": 2}
     e2 = {"res": 0, "int_length": 1, "loss_weight": 2}
+    # the stationary integral is over the solution components: v_u = vmap(lambda *args: u(*args)[u.slice_solution], ...)
+    vus = [v for v in branch_assigns(f, "v_u")]
+    sliced = bool(vus) and isinstance(vus[0], ast.Call) and ast.unparse(vus[0].func) == "vmap" and ast.unparse(vus[0].args[0]) == "lambda *args: u(*args)[u.slice_solution]"
     return ("(* inputs: 0 = u on the samples (samples x components; one such matrix per batch time when u depends on time), 1 = int_length, 2 = loss_weight *)\n"
             f"Definition gen_norm_reduce_statio : tx := {tx(vs[0], e1)}.\n"
-            f"Definition gen_norm_reduce_nonstatio : tx := {tx(vs[1], e2)}.")
+            f"Definition gen_norm_reduce_nonstatio : tx := {tx(vs[1], e2)}.\n"
+            f"Definition gen_norm_statio_over_solution_slice : bool := {'true' if sliced else 'false'}.")
 
 
 def _total(f, what):
@@ -191,3 +195,52 @@ def _(repo):
     out.append(f"Definition gen_total_statio_is_sum_of_returned_terms : bool := {'true' if ok_s else 'false'}.")
     out.append(f"Definition gen_total_nonstatio_is_sum_of_returned_terms : bool := {'true' if ok_n else 'false'}.")
     return "\n".join(out)
+
+
+# =============================================================== G_nets (C10)
+PINN_F = "jinns/utils/_pinn.py"
+HYPER_F = "jinns/utils/_hyperpinn.py"
+SPINN_F = "jinns/utils/_spinn.py"
+header("G_nets", """From Coq Require Import Bool.
+""")
+
+
+def _eval_pipeline(f, net_name):
+    """eval_nn: res = output_transform(inputs, net(input_transform(inputs, params)).squeeze(), params);
+    slice iff output_slice is not None; 0-d results get a trailing axis; `inputs` is never rebound"""
+    src = ast.unparse(f)
+    res = [ast.unparse(v) for v in branch_assigns(f, "res")]
+    rebound = [n for n in ast.walk(f) if isinstance(n, (ast.Assign, ast.AugAssign, ast.AnnAssign))
+               and any(isinstance(t, ast.Name) and t.id in ("inputs", "params") for t in (n.targets if isinstance(n, ast.Assign) else [n.target]))]
+    ifs = [n for n in ast.walk(f) if isinstance(n, ast.If)]
+    tests = [ast.unparse(i.test) for i in ifs]
+    rets = [ast.unparse(r) for r in returns(f)]
+    return (res == [f"self.output_transform(inputs, {net_name}(self.input_transform(inputs, params)).squeeze(), params)", "res[self.output_slice]"]
+            and not rebound and tests == ["self.output_slice is not None", "not res.shape"]
+            and rets == ["jnp.expand_dims(res, axis=-1)", "res"])
+
+
+@anchor("G_nets", "pinn_eval")
+def _(repo):
+    f = find_func(parse(repo, PINN_F), "eval_nn", "PINN")
+    ok = _eval_pipeline(f, "model")
+    c = find_func(parse(repo, PINN_F), "__call__", "PINN")
+    csrc = ast.unparse(c)
+    okc = ("len(t.shape) == 0" in csrc and "t = t[..., None]" in csrc and "t_x = jnp.concatenate([t, x], axis=-1)" in csrc
+           and "return self.eval_nn(t_x, params)" in csrc and "return self.eval_nn(x, params)" in csrc and "return self.eval_nn(t, params)" in csrc)
+    return (f"Definition gen_pinn_eval_pipeline : bool := {'true' if ok else 'false'}.\n"
+            f"Definition gen_pinn_call_conventions : bool := {'true' if okc else 'false'}.")
+
+
+@anchor("G_nets", "hyper_eval")
+def _(repo):
+    mod = parse(repo, HYPER_F)
+    f = find_func(mod, "eval_nn", "HYPERPINN")
+    ok = _eval_pipeline(f, "pinn")
+    src = ast.unparse(f)
+    ok = ok and "eq_params_batch = jnp.concatenate([params.eq_params[k].flatten() for k in self.hyperparams], axis=0)" in src \
+        and "hyper_output = hyper(eq_params_batch)" in src and "pinn_params = self._hyper_to_pinn(hyper_output)" in src and "pinn = eqx.combine(pinn_params, self.static)" in src
+    h = ast.unparse(find_func(mod, "_hyper_to_pinn", "HYPERPINN"))
+    okh = ("jnp.split(hyper_output, self.pinn_params_cumsum[:-1])" in h and "lambda p: tree_leaves(p, is_leaf=eqx.is_array)" in h and "lambda a, b: a.reshape(b.shape)" in h)
+    return (f"Definition gen_hyper_eval_pipeline : bool := {'true' if ok else 'false'}.\n"
+            f"Definition gen_hyper_split_in_leaf_order : bool := {'true' if okh else 'false'}.")
